@@ -26,7 +26,7 @@ TRUSTED = ["oracle: field-by-field comparison in Python (harness/props/C01.py:or
            "CPython's json module (json.dumps / json.loads) is trusted as a component and compared on every case with its Lean model: "
            "the written JSON text byte for byte with Json.render (op emitjson), the reader with Json.parse + tgOfJson on praatio-written, "
            "independently written, damaged and handwritten documents (ops parsejson, u_jsonstr, u_jsonnum, u_jsondoc)"]
-ASSUMPTIONS = ["labels and names contain no carriage return; names non-empty, single-line",
+ASSUMPTIONS = ["labels and names contain no carriage return; names non-empty",
                "intervals and gaps are at least 1e-6 long (sliver absorption is C04's subject)"]
 
 def numword_ok(w):
@@ -261,6 +261,17 @@ def corpus():
                                         {"k": "P", "name": "\tq ", "es": [[0.5, "m"]], "lo": 0.0, "hi": 2.0}]}
     for fmt in ioops.FORMATS:
         yield {"op": "roundtrip", "tg": g9, "fmt": fmt, "blanks": True, "iei": True}
+    # A32 (fixed): a tier name with a line break - the long-format reader's name pattern had no DOTALL (ParsingError)
+    g10 = {"lo": 0.0, "hi": 2.0, "tiers": [{"k": "I", "name": "c\nd", "es": [[0.0, 1.0, "x"]], "lo": 0.0, "hi": 2.0},
+                                         {"k": "P", "name": " e\n f\"g\" \n", "es": [[0.5, "m"]], "lo": 0.0, "hi": 2.0}]}
+    for fmt in ioops.FORMATS:
+        yield {"op": "roundtrip", "tg": g10, "fmt": fmt, "blanks": True, "iei": True}
+    # A33 (known): a line of a multi-line name that reads like the tier's span row is taken for it by the long-format reader
+    g11 = {"lo": 0.0, "hi": 2.0, "tiers": [{"k": "P", "name": "xmin = 1\nb", "es": [[0.5, "p"]], "lo": 0.0, "hi": 2.0}]}
+    g12 = {"lo": 0.0, "hi": 2.0, "tiers": [{"k": "P", "name": "a\n xmax= -2.5 \nz", "es": [[0.5, "p"]], "lo": 0.0, "hi": 2.0}]}
+    for g in (g11, g12):
+        for fmt in ioops.FORMATS:
+            yield {"op": "roundtrip", "tg": g, "fmt": fmt, "blanks": False, "iei": True, "stream": "keyword"}
     yield from json_corpus()
 
 
@@ -403,7 +414,7 @@ def gen_main(rnd, tier):
     for i in range(n):
         kw = rnd.random() < 0.12
         labels = ioops.PLAIN_LABELS + (ioops.KEYWORD_LABELS if kw else [])
-        names = ioops.NAMES + (ioops.KEYWORD_NAMES if kw and rnd.random() < 0.3 else [])
+        names = ioops.NAMES + (ioops.KEYWORD_NAMES + ioops.ROW_NAMES if kw and rnd.random() < 0.3 else [])
         g = despace(ioops.gen_tg(rnd, rnd.choice(["full", "full", "simple"]), labels=labels, names=names), rnd)
         blanks = rnd.random() < 0.6
         if not blanks and rnd.random() < 0.3:
